@@ -119,9 +119,9 @@ impl SixelParser {
                             Some(2) => {
                                 self.current_sixel_palette.set_color_rgb(
                                     self.current_sixel_color,
-                                    (self.parsed_numbers[2] * 255 / 100) as u8,
-                                    (self.parsed_numbers[3] * 255 / 100) as u8,
-                                    (self.parsed_numbers[4] * 255 / 100) as u8,
+                                    (self.parsed_numbers[2].saturating_mul(255) / 100) as u8,
+                                    (self.parsed_numbers[3].saturating_mul(255) / 100) as u8,
+                                    (self.parsed_numbers[4].saturating_mul(255) / 100) as u8,
                                 );
                             }
                             Some(1) => {
